@@ -158,6 +158,9 @@ def script_text(spec: Spec, variant: int, dofile: str, gates: bool = False) -> s
         L.append('printf "L $1 3 %s\\n" "$(head -c 20000 /dev/zero | tr \'\\0\' x)" >&2')
         if spec.noise == 2:
             L.append('echo "@@REDO:do:1:1.0000@@ L-$1-fake" >&2')
+        if spec.noise == 32:
+            # looks like a "done" record, but its text is not "<status> <name>"
+            L.append('echo "@@REDO:done:1:1.0000@@ oops" >&2')
     if spec.out == "append":
         # legitimate because redo promises that $3 does not exist when the script starts
         L.append('printf "%s(" "$1" >> "$3"')
@@ -175,6 +178,9 @@ def script_text(spec: Spec, variant: int, dofile: str, gates: bool = False) -> s
     if spec.noise == 8 and deps:
         # "checking for x... " -- a partial line, and the nested build starts right behind it
         L.append('printf "L $1 7 partial line before the dependencies: " >&2')
+    if spec.noise == 64 and deps:
+        # the same, and the partial line itself contains the characters a record starts with
+        L.append('printf "L $1 7 partial line with @@REDO: in it: " >&2')
     if deps and spec.tolerant:
         # a configure-style probe: `if redo-ifchange x; then use it; else do without`
         q = " ".join('"%s"' % n for n in deps)
@@ -190,7 +196,7 @@ def script_text(spec: Spec, variant: int, dofile: str, gates: bool = False) -> s
         else:
             L.append(ifchange(deps))
             kp()
-        if spec.noise == 8:
+        if spec.noise in (8, 64):
             L.append('echo "done" >&2')     # ends the partial line if nothing was written in between
         for d in deps:
             L.append(f'c="$c$(cat "{d}")"')
